@@ -81,16 +81,11 @@ func registerMore() {
 		ID: "C03",
 		Explanation: "A real started Server (reader, dispatcher, per-batch and handler goroutines as engine threads) over an instrumented channel receives two (thorough: up to three) records whose members are symbolically notifications or calls; every handler blocks on a gate, an environment thread opens the notification gates in a symbolic order, calls stay gated. " +
 			"Scheduling decisions at blocking points are explored up to the delay bound. Checked at quiescence: a notification of an earlier record has exited before any handler of a later record is entered; gated calls do not hold up later arrivals below the concurrency limit; handler count <= Concurrency; each handler ran exactly once.",
-		Bounds: []string{"records: 2 (thorough 2..3); members per record: 1..2 (quick: second record 1)", "Concurrency 2 (thorough {1,2})", "delay-bounded scheduler: <= 2 deviations from the deterministic lowest-thread-first order (thorough 3); context switches only at blocking operations (preemption bound 0)", "<= 8 threads"},
-		Outside:     []string{"schedules needing more delays or a preemption inside a critical section", "concurrent Stop/CancelRequest/push during dispatch (C08/C09 harnesses)"},
+		Bounds: []string{"records: 2; members per record: 1..2 (quick: second record 1)", "Concurrency 2 (thorough {1,2})", "thorough: a concurrent CancelRequest of one call or a (refused) push while dispatch is going on", "delay-bounded scheduler: <= 2 deviations from the deterministic lowest-thread-first order; context switches only at blocking operations (preemption bound 0)", "<= 9 threads"},
+		Outside:     []string{"schedules needing more delays or a preemption inside a critical section", "three or more records in flight (a 3-record configuration exceeded the thorough time budget)", "concurrent Stop during dispatch (C08 harness)"},
 		Assumptions: append([]string{jsonAssumption, "sync.Mutex/WaitGroup, channels, select and context are engine intrinsics; x/sync/semaphore and mds/queue are executed from source"}, commonAssumptions...),
 		Harnesses: []HarnessSpec{
-			{Dir: "jrpc2", Name: "Harness_C03_order", Reach: []string{"quiescent", "ordered-pair", "done"}, Tweak: func(c *Config, th bool) {
-				c.Delays = 2
-				if th {
-					c.Delays = 3
-				}
-			}},
+			{Dir: "jrpc2", Name: "Harness_C03_order", Reach: []string{"quiescent", "ordered-pair", "done"}, Tweak: delays(2, 2)},
 		},
 	})
 	addProp(&PropSpec{
@@ -259,7 +254,7 @@ func registerMore2() {
 		Bounds:      []string{"<= 2 pending requests in the pre-state", "one step per run (histories by induction)", "delay bound 2"},
 		Outside:     []string{"'leaving no goroutine behind' beyond the threads of one step", "deadline (as opposed to cancel) contexts in the step harness: filterError's mapping of both codes is decided in C14"},
 		Assumptions: append([]string{jsonAssumption, threadAssumption}, commonAssumptions...),
-		Harnesses: []HarnessSpec{{Dir: "jrpc2", Name: "Harness_C04_step", Reach: []string{"cancelled", "too-late-cancel", "stopped", "stopped-send", "send-failed"}, Tweak: delays(2, 3)},
+		Harnesses: []HarnessSpec{{Dir: "jrpc2", Name: "Harness_C04_step", Reach: []string{"cancelled", "deadline", "too-late-cancel", "stopped", "stopped-send", "send-failed"}, Tweak: delays(2, 3)},
 			{Dir: "jrpc2", Name: "Harness_C10_client", Reach: []string{"closed", "close-waits"}, Tweak: delays(2, 3)}},
 	})
 	addProp(&PropSpec{
@@ -302,9 +297,9 @@ func registerMore2() {
 		ID: "C09",
 		Explanation: "Inductive single-step verification of server push: from an arbitrary valid state (push on/off, running/stopped, 0..2 outstanding callbacks with distinct decimal ids below a symbolic counter) one real operation: Notify; Callback in a goroutine followed by its reply / context end / Stop; the reader's filterBatchLocked on a batch of 1..2 members (reply to an outstanding callback, late/duplicate/unsolicited reply with an arbitrary id, request); waitCallback after the context ended, before or after the reply.",
 		Bounds:      []string{"<= 2 outstanding callbacks", "batch <= 2", "callback counter any value in [1, 2^40)"},
-		Outside:     []string{"'replies are delivered while dispatch is parked behind a notification' is structural (filterBatchLocked runs in the reader, which never waits on the barrier); the C03 harness asserts that mu is free during the barrier wait only implicitly (deadlock detection)"},
+		Outside:     []string{"more than one callback awaited from inside handlers at once"},
 		Assumptions: append([]string{jsonAssumption, threadAssumption}, commonAssumptions...),
-		Harnesses: []HarnessSpec{{Dir: "jrpc2", Name: "Harness_C09_step", Reach: []string{"notify-unsupported", "notify-closed", "notified", "callback-unsupported", "callback-closed",
+		Harnesses: []HarnessSpec{{Dir: "jrpc2", Name: "Harness_C09_parked", Reach: []string{"parked-done"}, Tweak: delays(2, 3)}, {Dir: "jrpc2", Name: "Harness_C09_step", Reach: []string{"notify-unsupported", "notify-closed", "notified", "callback-unsupported", "callback-closed",
 			"callback-replied", "callback-cancelled", "callback-stopped", "reply-matched", "late-reply-dropped", "ctx-ended", "ctx-too-late"}}},
 	})
 	addProp(&PropSpec{
